@@ -26,8 +26,11 @@ def valid_date(y, m, d):
     return And(m >= 1, m <= 12, d >= 1, d <= dim(y, m))
 
 
-def ordinal(y, m, d):
-    """days since 1970-01-01 (proleptic Gregorian), closed form"""
+CUM = (0, 31, 59, 90, 120, 151, 181, 212, 243, 273, 304, 334)   # days before month m in a common year
+
+
+def ordinal_153(y, m, d):
+    """days since 1970-01-01 (proleptic Gregorian), closed form (days-from-civil)"""
     y2 = If(m <= 2, y - 1, y)
     era = Div(y2 + 4000, 400) - 10          # floor(y2/400) for y2 > -4000
     yoe = y2 - era * 400
@@ -35,6 +38,17 @@ def ordinal(y, m, d):
     doy = Div(153 * mp + 2, 5) + d - 1
     doe = yoe * 365 + Div(yoe, 4) - Div(yoe, 100) + doy
     return era * 146097 + doe - 719468
+
+
+def ordinal(y, m, d):
+    """days since 1970-01-01 (proleptic Gregorian): days before the year + days before the month
+    + day; written from the calendar rules (y >= 1)"""
+    y1 = y - 1
+    before_year = 365 * y1 + Div(y1, 4) - Div(y1, 100) + Div(y1, 400)
+    cum = CUM[11]
+    for k in range(10, -1, -1):
+        cum = If(Eq(m, k + 1), CUM[k], cum)
+    return before_year + cum + If(And(m > 2, leap(y)), 1, 0) + d - 719163
 
 
 def weekday(o):
